@@ -653,7 +653,7 @@ def apalache_inductive():
     """C05 / C03 at the design level beyond TLC's capacities: Apalache shows that the representation
     invariant (len <= Cap, keys pairwise different) is INDUCTIVE for the slot-level steps of the crate
     (find-or-append, swap-remove at any index, pop from the back, clear) for every capacity up to 32."""
-    d = os.path.join(WORK, "apalache")
+    d = os.path.join(WORK, "apalache-%d" % os.getpid())
     shutil.rmtree(d, ignore_errors=True)
     os.makedirs(d)
     shutil.copy(os.path.join(SPEC, "MapInd.tla"), d)
@@ -677,7 +677,7 @@ def apalache_refinement(tier):
     abstract content exactly as the dictionary operation does and returns what the dictionary returns
     (spec/MapRef.tla: action invariant Refines); the thorough tier also shows that the invariant - including
     retain's loop invariant - is inductive."""
-    d = os.path.join(WORK, "apalache-ref")
+    d = os.path.join(WORK, "apalache-ref-%d" % os.getpid())
     shutil.rmtree(d, ignore_errors=True)
     os.makedirs(d)
     shutil.copy(os.path.join(SPEC, "MapRef.tla"), d)
@@ -698,20 +698,24 @@ def apalache_refinement(tier):
 
 
 def tlaps_proof():
-    """C05 / C03, unbounded: TLAPS machine-checks that the representation invariant (len <= Cap, keys
-    pairwise different) is inductive for ANY capacity, key universe and slot-sequence length
-    (spec/MapProof.tla: Init => Inv, Inv /\\ [Next]_slots => Inv', hence []Inv)."""
-    d = os.path.join(WORK, "tlaps")
+    """C05 / C03 / C01 / C07, unbounded: TLAPS machine-checks that the representation invariant (len <= Cap,
+    keys pairwise different) is inductive for ANY capacity, key universe and slot-sequence length
+    (Init => Inv, Inv /\\ [Next]_slots => Inv', hence []Inv), and that every slot-level step refines the
+    ideal set of keys (spec/MapProof.tla) and the ideal key-value map (spec/MapProofKV.tla)."""
+    d = os.path.join(WORK, "tlaps-%d" % os.getpid())
     shutil.rmtree(d, ignore_errors=True)
     os.makedirs(d)
-    shutil.copy(os.path.join(SPEC, "MapProof.tla"), d)
-    t0 = time.time()
-    p = sh(["timeout", "900", "tlapm", "--threads", "8", "--cleanfp", "MapProof.tla"], cwd=d, timeout=1000, check=False)
-    m = re.search(r"All (\d+) obligations proved", p.stdout)
-    if not m:
-        raise ToolError("TLAPS does not prove spec/MapProof.tla:\n%s" % p.stdout[-1500:])
+    out = []
+    for mod in ("MapProof.tla", "MapProofKV.tla"):
+        shutil.copy(os.path.join(SPEC, mod), d)
+        t0 = time.time()
+        p = sh(["timeout", "900", "tlapm", "--threads", "8", "--cleanfp", mod], cwd=d, timeout=1000, check=False)
+        m = re.search(r"All (\d+) obligations proved", p.stdout)
+        if not m:
+            raise ToolError("TLAPS does not prove spec/%s:\n%s" % (mod, p.stdout[-1500:]))
+        out.append({"module": "spec/" + mod, "obligations_proved": int(m.group(1)), "bound": "none (any capacity, any keys, any values)", "wall_s": round(time.time() - t0, 1)})
     shutil.rmtree(d, ignore_errors=True)
-    return {"module": "spec/MapProof.tla", "obligations_proved": int(m.group(1)), "bound": "none (any capacity, any keys)", "wall_s": round(time.time() - t0, 1)}
+    return out
 
 
 def apalache_disjoint(tier):
@@ -720,7 +724,7 @@ def apalache_disjoint(tier):
     algorithm of get_disjoint_unchecked_mut never overflows its stack, splits at strictly increasing
     indices and hands every position the slot a plain scan finds."""
     n, j = (6, 3) if tier == "quick" else (10, 4)
-    d = os.path.join(WORK, "apalache-disj")
+    d = os.path.join(WORK, "apalache-disj-%d" % os.getpid())
     shutil.rmtree(d, ignore_errors=True)
     os.makedirs(d)
     src = open(os.path.join(SPEC, "MapDisj.tla")).read().replace("Gen(10)", "Gen(%d)" % n).replace("Gen(4)", "Gen(%d)" % j)
@@ -811,6 +815,7 @@ def run_check(pid, tier, seed):
         summary["apalache_disjoint"] = apalache_disjoint(tier)
     if pid in ("C01", "C07"):
         summary["apalache_refinement"] = apalache_refinement(tier)
+        summary["tlaps_inductive_invariant"] = tlaps_proof()
     gate = GATES.get(pid, {pid, "CRASH"}) | {"SPEC"}
     # (a rejected trace event is attributed exactly; the widened gates apply to replayed transitions only;
     #  but a rejection that no check running this very trace job would report is never dropped silently)
@@ -884,7 +889,7 @@ def main():
             os.makedirs(WORK, exist_ok=True)
             build_all(["debug", "release", "asan"])
             for f in sorted(os.listdir(SPEC)):
-                if f == "MapProof.tla":      # a TLAPS proof module: parsed and checked by tlapm inside the C05 / C03 checks
+                if f in ("MapProof.tla", "MapProofKV.tla"):      # TLAPS proof modules: parsed and checked by tlapm inside the C05 / C03 checks
                     continue
                 if f in ("MapInd.tla", "MapDisj.tla", "MapRef.tla"):      # typed for Apalache (EXTENDS Apalache): checked by its own type checker
                     p = sh(["timeout", "300", "apalache-mc", "typecheck", f], cwd=SPEC, timeout=400, check=False)
